@@ -323,6 +323,9 @@ func TestVerifC02(t *testing.T) {
 			case "scenario":
 				text = vMakeBase(r, 4, docs, cd.doc, vocab).text
 			}
+			if r.Intn(3) == 0 {
+				text = vSpice(r, text, 12+r.Intn(40))
+			}
 			in := []byte(text)
 			cs.setInput(in)
 			res := c.Match(in)
